@@ -1006,7 +1006,7 @@ fn supervise_check(id: &str, args: &[String]) -> i32 {
     // each case in a process of its own
     let home = verif_dir();
     let pending = home.join("pending").join(id);
-    let mut files: Vec<_> = std::fs::read_dir(&pending).map(|rd| rd.filter_map(|e| e.ok()).map(|e| e.path()).collect()).unwrap_or_default();
+    let mut files: Vec<_> = std::fs::read_dir(&pending).map(|rd| rd.filter_map(|e| e.ok()).map(|e| e.path()).filter(|p| p.extension().map(|x| x == "json").unwrap_or(false)).collect()).unwrap_or_default();
     files.sort();
     for f in files {
         let reproduced = (0..3).any(|_| std::process::Command::new(&exe).arg("replay").arg(&f).arg("--quiet").arg("--in-process").stdout(std::process::Stdio::null()).status().map(|s| s.code() == Some(1)).unwrap_or(false));
@@ -1037,8 +1037,12 @@ fn supervise_check(id: &str, args: &[String]) -> i32 {
             Ok(s) => (s.code() == Some(1), s.code().is_none()),
             Err(_) => (false, false),
         };
-        // a process that dies inside the library under test is a memory-safety failure in its own right (C14)
-        if violates || (dies && id == "C14") {
+        // a process that dies inside the library under test is a memory-safety failure in its own right (C14); in a case of the
+        // panic-containment property (C15) it is the opposite of containment: an injected panic that ends in an abort (a second
+        // panic raised by the library while the first one unwinds) takes every object of the process with it. (Twice: the
+        // verdict must be a property of the case.)
+        let dies_again = dies && (id == "C14" || id == "C15") && std::process::Command::new(&exe).arg("replay").arg(&tmp).arg("--quiet").arg("--in-process").stdout(std::process::Stdio::null()).stderr(std::process::Stdio::null()).status().map(|s| s.code().is_none()).unwrap_or(false);
+        if violates || dies_again {
             let _ = std::fs::create_dir_all(&rdir);
             let body = std::fs::read_to_string(&tmp).unwrap_or_default();
             let mut h = std::collections::hash_map::DefaultHasher::new();
@@ -1109,8 +1113,8 @@ fn main() {
                         Some(c) => c,
                         None => {
                             let prop = std::fs::read_to_string(path).ok().and_then(|b| serde_json::from_str::<ReplayFile>(&b).ok()).map(|rf| rf.property).unwrap_or_default();
-                            if prop == "C14" {
-                                println!("REPRODUCED property=C14 clause=process-died ({}): running this case killed the process ({})", path, st);
+                            if prop == "C14" || prop == "C15" {
+                                println!("REPRODUCED property={} clause=process-died ({}): running this case killed the process ({})", prop, path, st);
                                 1
                             } else {
                                 println!("UNDECIDED: running this case killed the process ({})", st);
